@@ -9,6 +9,9 @@ with every label-bearing move reached by walking the move table (composites recu
 each distinct object once): label length, same-label <=> same-particle, configured label
 for new atoms honoured, recorded particle number = initial + accepted insertions -
 accepted deletions, exchange template untouched.
+Further dimensions: displacement moves with a coarser grouping (pairs of particles under one label), moves built
+from one and the same label array object, insertions pre-selected with another number of atoms than the template; a
+new particle's label must not be one that atoms present before the trial already carry.
 """
 from __future__ import annotations
 
